@@ -95,6 +95,7 @@ type c16Case struct {
 	BatchEngine bool // engines map contains the ed25519 batch engine (auth.DefaultEngines) or is empty
 	Exec        bool // through chain.Processor.Execute instead of NewAuthBatch directly
 	WaitEarly   bool // direct mode: Wait is called as soon as the transactions are added (else after the Done callback)
+	Gate        bool // direct mode with WaitEarly: the batch verification tasks are held back until Wait has been entered
 	Blocks      []c16Block
 }
 
@@ -123,6 +124,7 @@ func c16Gen(rt *rapid.T) c16Case {
 		BatchEngine: rapid.SampledFrom([]bool{true, true, true, false}).Draw(rt, "batchEngine"),
 		Exec:        rapid.IntRange(0, 4).Draw(rt, "exec") == 0,
 		WaitEarly:   rapid.Bool().Draw(rt, "waitEarly"),
+		Gate:        rapid.Bool().Draw(rt, "gate"),
 	}
 	cores := max(c.Workers, 1)
 	nBlocks := rapid.SampledFrom([]int{1, 1, 1, 2, 2, 3}).Draw(rt, "nBlocks")
@@ -142,10 +144,10 @@ func c16Gen(rt *rapid.T) c16Case {
 		for i := range blk.Slots {
 			blk.Slots[i] = c16Slot{Pick: rapid.IntRange(0, 3).Draw(rt, "pick"), Key: rapid.IntRange(0, poolSize-1).Draw(rt, "key")}
 		}
-		nf := rapid.SampledFrom([]int{0, 0, 0, 1, 1, 1, 1, 2, 2, 3}).Draw(rt, "nFaults")
+		nf := rapid.SampledFrom([]int{0, 0, 1, 1, 1, 1, 2, 2, 3}).Draw(rt, "nFaults")
 		for f := 0; f < nf; f++ {
 			blk.Faults = append(blk.Faults, c16Fault{
-				Scheme: rapid.SampledFrom([]int{0, 0, 0, 0, 1, 2, 3}).Draw(rt, "fScheme"),
+				Scheme: rapid.IntRange(0, 6).Draw(rt, "fScheme"),
 				PosSel: rapid.IntRange(0, 6).Draw(rt, "fPosSel"),
 				PosArg: rapid.IntRange(0, 63).Draw(rt, "fPosArg"),
 				Kind:   rapid.IntRange(1, 5).Draw(rt, "fKind"),
@@ -356,13 +358,24 @@ func c16Expand(c c16Case, bi int, st *vstat.Stats) []c16TxSpec {
 		specs = append(specs, c16TxSpec{Scheme: s, Key: slot.Key, Msg: bi*1000 + i})
 	}
 	cores := max(c.Workers, 1)
+	var present []int
+	for s := 0; s < 4; s++ {
+		if len(byScheme[s]) > 0 {
+			present = append(present, s)
+		}
+	}
 	for _, f := range blk.Faults {
-		s := ((f.Scheme % 4) + 4) % 4
-		n := len(byScheme[s])
-		if n == 0 {
-			st.Skip("fault-on-absent-scheme")
+		if len(present) == 0 {
+			st.Skip("fault-in-empty-block")
 			continue
 		}
+		// selector 0..3 -> ed25519 when the block has any, else (and 4..6) any scheme present
+		sel := ((f.Scheme % 7) + 7) % 7
+		s := present[sel%len(present)]
+		if sel < 4 && len(byScheme[schemeEd]) > 0 {
+			s = schemeEd
+		}
+		n := len(byScheme[s])
 		bs := max(n/cores, ed25519.MinBatchSize)
 		k := -1
 		switch f.PosSel {
@@ -380,12 +393,9 @@ func c16Expand(c c16Case, bi int, st *vstat.Stats) []c16TxSpec {
 			}
 		case c16PosLastOfFull:
 			k = (n/bs)*bs - 1
-		default:
-			k = f.PosArg % n
 		}
 		if k < 0 || k >= n {
-			st.Skip("fault-position-inapplicable")
-			continue
+			k = ((f.PosArg % n) + n) % n
 		}
 		sp := &specs[byScheme[s][k]]
 		sp.Fault, sp.Arg = f.Kind, f.Arg
@@ -439,6 +449,50 @@ func (w *c16Workers) lastJob() *c16Job {
 	w.mu.Lock()
 	defer w.mu.Unlock()
 	return w.last
+}
+
+// c16GatedEngines wraps the batch verifiers so that the verification closures their Done hands to the
+// job block until the harness opens the gate (the harness owns this part of the schedule).
+type c16GatedEngines struct {
+	inner chain.AuthEngines
+	gate  chan struct{}
+	held  atomic.Int64
+}
+
+func (g *c16GatedEngines) GetAuthBatchVerifier(t uint8, cores int, count int) (chain.AuthBatchVerifier, bool) {
+	bv, ok := g.inner.GetAuthBatchVerifier(t, cores, count)
+	if !ok {
+		return nil, false
+	}
+	return &c16GatedBV{g: g, inner: bv}, true
+}
+
+type c16GatedBV struct {
+	g     *c16GatedEngines
+	inner chain.AuthBatchVerifier
+}
+
+func (b *c16GatedBV) wrap(f func() error) func() error {
+	if f == nil {
+		return nil
+	}
+	b.g.held.Add(1)
+	return func() error {
+		<-b.g.gate
+		return f()
+	}
+}
+
+// Only the closures returned by Done (final partial batch / re-check of the last full batch) are
+// held: those of Add run while the caller is still adding and could block it on a serial job.
+func (b *c16GatedBV) Add(msg []byte, a chain.Auth) func() error { return b.inner.Add(msg, a) }
+func (b *c16GatedBV) Done() []func() error {
+	fs := b.inner.Done()
+	out := make([]func() error, len(fs))
+	for i, f := range fs {
+		out[i] = b.wrap(f)
+	}
+	return out
 }
 
 var errC16Inconclusive = errors.New("inconclusive: verification did not finish within the deadline but the job was still making progress")
@@ -508,7 +562,26 @@ func c16CountGoroutines(substr string) int {
 // ------------------------------------------------------------------ the two ways of running the signature job
 
 // c16Direct mirrors Processor.verifySignatures followed by Processor.waitSignatures.
-func c16Direct(pool *c16Workers, engines chain.AuthEngines, txs []*chain.Transaction, waitEarly bool) (error, error) {
+func c16Direct(pool *c16Workers, engines chain.AuthEngines, txs []*chain.Transaction, waitEarly, gate bool) (error, error) {
+	type out struct{ got, infra error }
+	ch := make(chan out, 1)
+	go func() {
+		got, infra := c16DirectBody(pool, engines, txs, waitEarly, gate)
+		ch <- out{got, infra}
+	}()
+	o, err := c16Await(ch, pool.lastJob, "signature job (adding transactions)")
+	if err != nil {
+		return nil, err
+	}
+	return o.got, o.infra
+}
+
+func c16DirectBody(pool *c16Workers, engines chain.AuthEngines, txs []*chain.Transaction, waitEarly, gate bool) (error, error) {
+	var gated *c16GatedEngines
+	if waitEarly && gate {
+		gated = &c16GatedEngines{inner: engines, gate: make(chan struct{})}
+		engines = gated
+	}
 	// --- verifySignatures
 	authCounts := make(map[uint8]int) // as chain.NewExecutionBlock
 	for _, tx := range txs {
@@ -532,7 +605,14 @@ func c16Direct(pool *c16Workers, engines chain.AuthEngines, txs []*chain.Transac
 	}
 	// --- waitSignatures
 	res := make(chan error, 1)
-	go func() { res <- sigJob.Wait() }()
+	entered := make(chan struct{})
+	go func() { close(entered); res <- sigJob.Wait() }()
+	if gated != nil {
+		// open the gate only once Wait has been entered (a correct Wait is still blocked then)
+		<-entered
+		time.Sleep(2 * time.Millisecond)
+		close(gated.gate)
+	}
 	got, err := c16Await(res, pool.lastJob, "signature job (Wait)")
 	if err != nil {
 		return nil, err
@@ -670,6 +750,8 @@ func c16Run(c c16Case, st *vstat.Stats) error {
 	}
 	if c.Exec {
 		labels["via=Processor.Execute"] = true
+	} else if c.WaitEarly && c.Gate {
+		labels["via=AuthBatch,wait-early,batch-tasks-gated"] = true
 	} else if c.WaitEarly {
 		labels["via=AuthBatch,wait-early"] = true
 	} else {
@@ -779,7 +861,7 @@ func c16Run(c c16Case, st *vstat.Stats) error {
 		if c.Exec {
 			got, infra = cc.exec(pool, txs)
 		} else {
-			got, infra = c16Direct(pool, engines, txs, c.WaitEarly)
+			got, infra = c16Direct(pool, engines, txs, c.WaitEarly, c.Gate)
 		}
 		sum := blkSummary{N: len(txs), Ed: edCount, BatchSize: bs, Invalid: invalid, Want: fmt.Sprint(want), Got: fmt.Sprint(got)}
 		summary = append(summary, sum)
@@ -795,8 +877,8 @@ func c16Run(c c16Case, st *vstat.Stats) error {
 		}
 		switch {
 		case want != nil && got == nil:
-			firstErr = fmt.Errorf("block %d: %d txs, auth of tx %v does not verify one-by-one (%v) but the signature job reported success (workers=%d batchEngine=%v exec=%v waitEarly=%v ed25519 count=%d batchSize=%d)",
-				bi, len(txs), invalid, want, c.Workers, c.BatchEngine, c.Exec, c.WaitEarly, edCount, bs)
+			firstErr = fmt.Errorf("block %d: %d txs, auth of tx %v does not verify one-by-one (%v) but the signature job reported success (workers=%d batchEngine=%v exec=%v waitEarly=%v gate=%v ed25519 count=%d batchSize=%d)",
+				bi, len(txs), invalid, want, c.Workers, c.BatchEngine, c.Exec, c.WaitEarly, c.Gate, edCount, bs)
 		case want == nil && got != nil:
 			firstErr = fmt.Errorf("block %d: every auth of the %d txs verifies one-by-one but verification failed: %v (workers=%d batchEngine=%v exec=%v ed25519 count=%d batchSize=%d)",
 				bi, len(txs), got, c.Workers, c.BatchEngine, c.Exec, edCount, bs)
@@ -831,7 +913,7 @@ func c16Run(c c16Case, st *vstat.Stats) error {
 	return firstErr
 }
 
-const c16Rule = "1-3 blocks verified on one pool (serial or 1..16 parallel workers; engines map with/without the ed25519 batch engine; through Processor.Execute or NewAuthBatch+Job as verifySignatures/waitSignatures do, Wait called before or after the Done callback); each block mixes 0-40 ed25519, 0-6 secp256r1, 0-4 BLS and 0-6 stub auths (ed25519 counts biased to k*batchSize-1/+0/+1), 0-3 faults (bit flip, signature of another message, wrong key, s+l / n-s / negated, key bit) at first/last/batch-boundary/last-partial-batch positions; oracle = auth.Verify one by one; non-trivial = batch engine on and an invalid ed25519 signature in the final partial batch or at a batch boundary; distinct by the whole case"
+const c16Rule = "1-3 blocks verified on one pool (serial or 1..16 parallel workers; engines map with/without the ed25519 batch engine; through Processor.Execute or NewAuthBatch+Job as verifySignatures/waitSignatures do, Wait called before or after the Done callback, optionally with the batch tasks held back until Wait is entered); each block mixes 0-40 ed25519, 0-6 secp256r1, 0-4 BLS and 0-6 stub auths (ed25519 counts biased to k*batchSize-1/+0/+1), 0-3 faults (bit flip, signature of another message, wrong key, s+l / n-s / negated, key bit) at first/last/batch-boundary/last-partial-batch positions; oracle = auth.Verify one by one; non-trivial = batch engine on and an invalid ed25519 signature in the final partial batch or at a batch boundary; distinct by the whole case"
 
 func TestC16(t *testing.T) {
 	st := vstat.New(t, "C16", c16Rule)
@@ -852,3 +934,36 @@ func TestC16Replay(t *testing.T) {
 }
 
 
+
+// TestC16Regression replays the minimal cases of the two defects this check found on the
+// pinned tree (fixed in /repo by "serial verification job reported success before its tasks
+// ran" = fixes/F20-serial-job-wait.diff and "verification worker must keep serving tasks after a
+// job error" = fixes/F5-workers-continue.diff) plus a few hand-picked boundary blocks.
+func TestC16Regression(t *testing.T) {
+	st := vstat.New(t, "C16", "regression: hand-written minimal cases (serial pool + ed25519 batch engine with an invalid signature in the only / final batch, Wait entered before the batch tasks ran, directly and through Processor.Execute; 1-worker pool with a failing first signature followed by further tasks and a second block; ed25519 counts exactly k*batchSize with the invalid signature first/last)")
+	slots := func(n int) []c16Slot { return make([]c16Slot, n) }
+	flt := func(scheme, pos, kind int) c16Fault { return c16Fault{Scheme: scheme, PosSel: pos, Kind: kind, Arg: 107} }
+	cases := []c16Case{
+		// F20: serial pool, batch engine, one invalid ed25519 tx, through Execute
+		{Workers: 0, BatchEngine: true, Exec: true, Blocks: []c16Block{{Counts: [4]int{1, 0, 0, 0}, Slots: slots(1), Faults: []c16Fault{flt(0, c16PosFirst, c16FaultBitFlip)}}}},
+		// F20: same, direct, batch tasks gated until Wait is entered (deterministic)
+		{Workers: 0, BatchEngine: true, WaitEarly: true, Gate: true, Blocks: []c16Block{{Counts: [4]int{3, 0, 0, 0}, Slots: slots(3), Faults: []c16Fault{flt(0, c16PosLast, c16FaultBitFlip)}}}},
+		{Workers: 0, BatchEngine: true, WaitEarly: true, Gate: true, Blocks: []c16Block{{Counts: [4]int{9, 2, 0, 1}, Slots: slots(12), Faults: []c16Fault{flt(0, c16PosLast, c16FaultAlgebraic)}}}},
+		// F5: one worker, the first of five non-batched verifications fails; then a valid block on the same pool
+		{Workers: 1, BatchEngine: false, Blocks: []c16Block{
+			{Counts: [4]int{0, 0, 0, 5}, Slots: slots(5), Faults: []c16Fault{flt(4, c16PosFirst, c16FaultBitFlip)}},
+			{Counts: [4]int{2, 1, 1, 1}, Slots: slots(5)}}},
+		{Workers: 2, BatchEngine: true, Exec: true, Blocks: []c16Block{
+			{Counts: [4]int{8, 0, 0, 4}, Slots: slots(12), Faults: []c16Fault{flt(0, c16PosFirst, c16FaultOtherMsg)}},
+			{Counts: [4]int{8, 0, 0, 4}, Slots: slots(12)}}},
+		// exact multiples of the batch size, invalid at the very end / start of a batch
+		{Workers: 2, BatchEngine: true, Blocks: []c16Block{{Counts: [4]int{8, 0, 0, 0}, Slots: slots(8), Faults: []c16Fault{flt(0, c16PosLast, c16FaultWrongKey)}}}},
+		{Workers: 4, BatchEngine: true, WaitEarly: true, Blocks: []c16Block{{Counts: [4]int{16, 0, 0, 0}, Slots: slots(16), Faults: []c16Fault{flt(0, c16PosStartSecond, c16FaultBitFlip)}}}},
+		{Workers: 4, BatchEngine: true, Blocks: []c16Block{{Counts: [4]int{17, 0, 0, 0}, Slots: slots(17), Faults: []c16Fault{flt(0, c16PosFirstOfPartial, c16FaultKeyBit)}}}},
+		{Workers: 16, BatchEngine: true, Exec: true, Blocks: []c16Block{{Counts: [4]int{40, 3, 2, 3}, Slots: slots(48)}}},
+	}
+	for i := range cases {
+		c := cases[i]
+		vstat.Run(t, st, c, func() error { return c16Run(c, st) })
+	}
+}
